@@ -409,3 +409,59 @@ func (n *Node) Get(key string) *Node {
 	}
 	return r
 }
+
+// ParsePrefix parses one JSON value at the start of b and returns it with the number of bytes
+// consumed (no surrounding whitespace is skipped).
+func ParsePrefix(b []byte) (*Node, int, error) {
+	p := &parser{b: b}
+	n, err := p.value()
+	if err != nil {
+		return nil, 0, err
+	}
+	return n, p.i, nil
+}
+
+// SemEqual compares two values the way a JSON map decode sees them: object member order is
+// irrelevant and the last duplicate wins; numbers compare by text; strings decoded.
+func SemEqual(a, b *Node) bool {
+	if a.Kind != b.Kind {
+		return false
+	}
+	switch a.Kind {
+	case Null:
+		return true
+	case Bool:
+		return a.B == b.B
+	case Number:
+		return a.Num == b.Num
+	case String:
+		return a.Str == b.Str
+	case Array:
+		if len(a.Arr) != len(b.Arr) {
+			return false
+		}
+		for i := range a.Arr {
+			if !SemEqual(a.Arr[i], b.Arr[i]) {
+				return false
+			}
+		}
+		return true
+	}
+	am, bm := map[string]*Node{}, map[string]*Node{}
+	for _, kv := range a.Obj {
+		am[kv.Key] = kv.Val
+	}
+	for _, kv := range b.Obj {
+		bm[kv.Key] = kv.Val
+	}
+	if len(am) != len(bm) {
+		return false
+	}
+	for k, v := range am {
+		w, ok := bm[k]
+		if !ok || !SemEqual(v, w) {
+			return false
+		}
+	}
+	return true
+}
